@@ -27,6 +27,8 @@ impl Iterator for BasicLexer {
     type Item = Token;
 
     fn next(&mut self) -> Option<Self::Item> {
+        #[cfg(feature = "verif")]
+        crate::verif::tick(crate::verif::SITE_LEX_NEXT);
         if let Some(t) = self.pending.pop_front() {
             return Some(t);
         }
@@ -67,6 +69,8 @@ impl BasicLexer {
         let mut line_str_pos: usize = 0;
         let mut seen_digit = false;
         while let Some(s) = source_line.get(line_str_pos..) {
+            #[cfg(feature = "verif")]
+            crate::verif::tick(crate::verif::SITE_LEX_LINENO);
             if let Some(ch) = s.chars().next() {
                 if seen_digit && is_basic_whitespace(ch) {
                     break;
@@ -152,6 +156,8 @@ impl BasicLexer {
             }
         }
         while let Some((index, token)) = locs.pop() {
+            #[cfg(feature = "verif")]
+            crate::verif::tick(crate::verif::SITE_LEX_POST);
             tokens.splice(index..index + 3, Some(token));
         }
     }
@@ -160,6 +166,8 @@ impl BasicLexer {
         let mut locs: Vec<(usize, Token)> = vec![];
         let mut tokens_iter = tokens.windows(2).enumerate();
         while let Some((index, tt)) = tokens_iter.next() {
+            #[cfg(feature = "verif")]
+            crate::verif::tick(crate::verif::SITE_LEX_POST);
             if let Token::Operator(Operator::Equal) = tt[0] {
                 if let Token::Operator(Operator::Greater) = tt[1] {
                     locs.push((index, Token::Operator(Operator::GreaterEqual)));
@@ -188,6 +196,8 @@ impl BasicLexer {
             }
         }
         while let Some((index, token)) = locs.pop() {
+            #[cfg(feature = "verif")]
+            crate::verif::tick(crate::verif::SITE_LEX_POST);
             tokens.splice(index..index + 2, Some(token));
         }
     }
@@ -200,6 +210,8 @@ impl BasicLexer {
             }
         }
         while let Some(index) = locs.pop() {
+            #[cfg(feature = "verif")]
+            crate::verif::tick(crate::verif::SITE_LEX_POST);
             tokens.insert(index + 1, Token::Whitespace(1));
         }
     }
@@ -218,6 +230,8 @@ impl BasicLexer {
     fn whitespace(&mut self) -> Option<Token> {
         let mut len = 0;
         loop {
+            #[cfg(feature = "verif")]
+            crate::verif::tick(crate::verif::SITE_LEX_WHITESPACE);
             self.chars.pop_front();
             len += 1;
             if let Some(pk) = self.chars.front() {
@@ -235,6 +249,8 @@ impl BasicLexer {
         let mut decimal = false;
         let mut exp = false;
         while let Some(mut ch) = self.chars.pop_front() {
+            #[cfg(feature = "verif")]
+            crate::verif::tick(crate::verif::SITE_LEX_NUMBER);
             if ch == 'e' {
                 ch = 'E'
             }
@@ -300,6 +316,8 @@ impl BasicLexer {
         let mut s = String::new();
         self.chars.pop_front();
         while let Some(ch) = self.chars.pop_front() {
+            #[cfg(feature = "verif")]
+            crate::verif::tick(crate::verif::SITE_LEX_STRING);
             if ch == '"' {
                 break;
             }
@@ -312,6 +330,8 @@ impl BasicLexer {
         let mut s = String::new();
         let mut digit = false;
         while let Some(ch) = self.chars.pop_front() {
+            #[cfg(feature = "verif")]
+            crate::verif::tick(crate::verif::SITE_LEX_ALPHABETIC);
             let ch = ch.to_ascii_uppercase();
             s.push(ch);
             if is_basic_digit(ch) {
@@ -365,6 +385,8 @@ impl BasicLexer {
         };
         let mut s = String::new();
         while let Some(ch) = self.chars.pop_front() {
+            #[cfg(feature = "verif")]
+            crate::verif::tick(crate::verif::SITE_LEX_RADIX);
             let ch = ch.to_ascii_uppercase();
             if ('0'..='7').contains(&ch)
                 || (is_hex && (('8'..='9').contains(&ch) || ('A'..='F').contains(&ch)))
@@ -385,6 +407,8 @@ impl BasicLexer {
     fn minutia(&mut self) -> Option<Token> {
         let mut s = String::new();
         while let Some(ch) = self.chars.pop_front() {
+            #[cfg(feature = "verif")]
+            crate::verif::tick(crate::verif::SITE_LEX_MINUTIA);
             s.push(ch);
             if let Some(token) = Token::match_minutia(&s) {
                 return Some(token);
